@@ -111,6 +111,9 @@ const (
 	bPass, bMutate, bReqErr, bResErr, bSkip, bHijReq, bHijRes = "pass", "mutate", "reqerr", "reserr", "skip", "hijack-req", "hijack-res"
 	// bDown: the origin of this exchange cannot be dialled: the 502 must pass the response modifier once
 	bDown = "origin-down"
+	// bSkipNoHost: an HTTP/1.0 request in origin-form without a Host header whose
+	// request modifier skips the round trip (a health check answered by the proxy)
+	bSkipNoHost = "skip-nohost"
 )
 
 type call struct {
@@ -247,7 +250,7 @@ func (p *probe) ModifyRequest(req *http.Request) error {
 		req.Header.Set("X-Mutated-Req", id)
 	case bReqErr:
 		err = p.errText("reqerr", id)
-	case bSkip:
+	case bSkip, bSkipNoHost:
 		if ctx != nil {
 			ctx.SkipRoundTrip()
 		}
@@ -545,6 +548,20 @@ func runOnce(c Case, T time.Duration) (v kit.Verdict) {
 						class = "not-closed-timeout"
 					}
 					addf("C02/hijack/"+shape+"/"+class, "exchange %s: the proxy did not close the hijacked connection within %v after the modifier returned (%v)", id, T, rerr)
+				} else if !tlsInside && rerr == nil {
+					// end-of-stream alone could be a half-close by a proxy that goes on
+					// reading: a closed socket refuses further bytes (reset) within moments
+					refused := false
+					for k := 0; k < 6 && !refused; k++ {
+						conn.SetWriteDeadline(time.Now().Add(time.Second))
+						if _, werr := conn.Write([]byte("STILL-THERE?\n")); werr != nil {
+							refused = true
+						}
+						time.Sleep(30 * time.Millisecond)
+					}
+					if !refused {
+						addf("C02/hijack/"+shape+"/half-closed-and-still-reading", "exchange %s: after the modifier returned the client saw end-of-stream, but the proxy's socket still accepted bytes 180 ms later: it was only half-closed", id)
+					}
 				}
 			}
 
@@ -671,6 +688,9 @@ func runOnce(c Case, T time.Duration) (v kit.Verdict) {
 					}
 				}
 				wire := innerRequest(c.Body, target, host, id, beh)
+				if beh == bSkipNoHost {
+					wire = fmt.Sprintf("GET /healthz-%s HTTP/1.0\r\nX-Verif-Id: %s\r\nX-Verif-Beh: %s\r\n\r\n", id, id, beh)
+				}
 				if beh == bHijReq && c.Body != "" && c.PartialOnHijack {
 					wire = wire[:strings.Index(wire, "\r\n\r\n")+4+3]
 				}
@@ -689,7 +709,11 @@ func runOnce(c Case, T time.Duration) (v kit.Verdict) {
 					afterHijack(id, marker, tlsInside)
 					return
 				}
-				res, body, err := readResp(innerMethod(c.Body))
+				method := innerMethod(c.Body)
+				if beh == bSkipNoHost {
+					method = "GET"
+				}
+				res, body, err := readResp(method)
 				if err != nil {
 					class := "no-response"
 					if netkit.IsTimeout(err) {
@@ -709,7 +733,7 @@ func runOnce(c Case, T time.Duration) (v kit.Verdict) {
 					continue
 				}
 				switch beh {
-				case bSkip:
+				case bSkip, bSkipNoHost:
 					if len(body) != 0 || res.Header.Get("X-Origin-Id") != "" {
 						addf("C02/skip/"+cn.Mode+"/origin-response-delivered", "exchange %s asked to skip the round trip but the client got the origin's answer %q", id, trunc(body, 60))
 					}
@@ -850,9 +874,9 @@ func runOnce(c Case, T time.Duration) (v kit.Verdict) {
 					v.Addf("C02/calls/blind-connect/upstream-contact-before-request-modifier", "target dialled (t=%d) before the request modifier ran (t=%d)", ds[0], rq.seq)
 				}
 			}
-		case e.beh == bSkip || e.beh == bHijReq || e.beh == bDown:
+		case e.beh == bSkip || e.beh == bSkipNoHost || e.beh == bHijReq || e.beh == bDown:
 			if len(mine) != 0 {
-				v.Addf("C02/"+map[string]string{bSkip: "skip", bHijReq: "hijack", bDown: "origin-down"}[e.beh]+"/"+kind+"/origin-contacted", "exchange %s (%s) must not reach the origin but the origin received it %d time(s)", e.id, e.beh, len(mine))
+				v.Addf("C02/"+map[string]string{bSkip: "skip", bSkipNoHost: "skip", bHijReq: "hijack", bDown: "origin-down"}[e.beh]+"/"+kind+"/origin-contacted", "exchange %s (%s) must not reach the origin but the origin received it %d time(s)", e.id, e.beh, len(mine))
 			}
 		default:
 			if len(mine) != 1 {
@@ -950,9 +974,12 @@ func genCase(t *rapid.T) Case {
 			k := rapid.IntRange(1, 5).Draw(t, "inner")
 			for j := 0; j < k; j++ {
 				b := rapid.SampledFrom([]string{bPass, bPass, bPass, bMutate, bReqErr, bResErr, bSkip, bDown, bHijReq, bHijRes}).Draw(t, "beh")
+				if mode == "plain" && b == bSkip && rapid.IntRange(0, 3).Draw(t, "nohost") == 0 {
+					b = bSkipNoHost
+				}
 				cn.Inner = append(cn.Inner, b)
-				if isHijack(b) {
-					break
+				if isHijack(b) || b == bSkipNoHost {
+					break // (an HTTP/1.0 request without keep-alive ends its connection)
 				}
 			}
 		}
